@@ -143,6 +143,10 @@ func init() {
 		c.Fact("oauth.handleRegistration.checks", checkSeq(c, c.Func("auth", "AuthorizationCodeHandler", "handleRegistration")))
 		c.Fact("oauth.getAuthorizationCode.checks", checkSeq(c, c.Func("auth", "AuthorizationCodeHandler", "getAuthorizationCode")))
 		c.Fact("oauth.getJSON.checks", checkSeq(c, c.Func("oauthex", "", "getJSON")))
+		// the two builders of the candidate lists: branch and append order (the challenge's URL first if there is one,
+		// then the path variant, then the root; issuer without / with a path)
+		c.Fact("oauth.protectedResourceMetadataURLs.checks", checkSeq(c, c.Func("auth", "", "protectedResourceMetadataURLs")))
+		c.Fact("oauth.authorizationServerMetadataURLs.checks", checkSeq(c, c.Func("auth", "", "authorizationServerMetadataURLs")))
 		c.Fact("oauth.RegisterClient.checks", checkSeq(c, c.Func("oauthex", "", "RegisterClient")))
 		// validateAuthServerMetaURLs: which fields get which check
 		if fd := c.Func("oauthex", "", "validateAuthServerMetaURLs"); fd != nil {
